@@ -284,6 +284,9 @@ def cls_out_of_window(rnd):
                 t["end"] = st + span + timedelta(minutes=rnd.choice([1, 30, 59, 61, 90]))
                 m["alap"] = True
     text = gen.render(m)
+    if rnd.random() < 0.06:
+        # a project at the edge of the calendar (found by the thorough tier's corrupted digits: 9999-12-31 +3w)
+        return m, re.sub(r'(project \w+ "P" )\d{4}-\d{2}-\d{2}', r"\g<1>" + rnd.choice(["9999-12-31", "9999-12-20", "0001-01-01"]), text, count=1)
     if rnd.random() < 0.4:
         # a milestone pinned a little outside the window (less than a slot, one or two slots)
         off = rnd.choice([1, 15, 30, 59, 61, 90, 150])
